@@ -51,7 +51,7 @@ COSMO_BOX = {
 }
 
 
-def gen_config(rng, force=False, mixed=False, custom_sne=False, with_kde=False, file_sne=False):
+def gen_config(rng, force=False, mixed=False, custom_sne=False, with_kde=False, file_sne=False, dspl=False):
     """force: the configuration with the most sampled blocks (log-space scatters, two anisotropy scatters);
     mixed: a sample in which a kinematic lens WITHOUT a slope axis precedes lenses that sample their own slope"""
     cosmology = rng.choice(["FLCDM", "FwCDM", "w0waCDM", "oLCDM", "oLCDM"])
@@ -85,6 +85,16 @@ def gen_config(rng, force=False, mixed=False, custom_sne=False, with_kde=False, 
                 kw["j_kin_scaling_param_axes"] = np.asarray(ax)[::-1].copy()
                 kw["j_kin_scaling_grid_list"] = [np.asarray(g)[::-1].copy() for g in kw["j_kin_scaling_grid_list"]]
         lenses.append((kw, lt, data))
+    if dspl:
+        # a double-source-plane lens: its SECOND source plane is the highest redshift of the data set
+        for _ in range(2000):
+            kw, lt, data = c07.gen_lens(rng, npop, {})
+            if lt == "DSPL":
+                break
+        kw.pop("lambda_mst_distribution", None)
+        kw.pop("anisotropy_sampling", None)
+        kw["z_source"], kw["z_source2"] = rng.uniform(0.8, 1.4), rng.uniform(2.2, 3.2)
+        lenses = [(kw, lt, data)] + [l for l in lenses if max(l[0].get("z_source", 0), l[0].get("z_source2", 0)) < 2.0][:1]
     has_grid = any("kin_scaling_param_list" in kw for kw, _, _ in lenses)
     has_kin = any(lt in lc.KIN_TYPES for _, lt, _ in lenses)
     has_mag = any(lt in lc.MAG_TYPES for _, lt, _ in lenses)
@@ -129,7 +139,7 @@ def gen_config(rng, force=False, mixed=False, custom_sne=False, with_kde=False, 
     if has_kin and rng.random() < 0.4:
         model["sigma_v_systematics"] = True
         lo_k["sigma_v_sys_error"], up_k["sigma_v_sys_error"] = (0.001 if logsc else 0.0), 0.5
-    sne = custom_sne or file_sne or rng.random() < 0.25
+    sne = (custom_sne or file_sne or rng.random() < 0.25) and not dspl
     if has_mag or sne:
         model["sne_apparent_m_sampling"] = True
         model["sne_distribution"] = rng.choice(["GAUSSIAN", "NONE"])
@@ -398,8 +408,8 @@ def run(ctx, res):
     ncfg = ctx.n(28, 400)
     lines, meta = [], []
     for t in range(ncfg):
-        cfg = gen_config(rng, force=(t < 2), mixed=(t in (2, 3)), custom_sne=(t == 4), with_kde=(t in (5, 6)), file_sne=(t == 7))
-        if t in (5, 7):
+        cfg = gen_config(rng, force=(t < 2), mixed=(t in (2, 3)), custom_sne=(t == 4), with_kde=(t in (5, 6)), file_sne=(t == 7), dspl=(t == 8))
+        if t in (5, 7, 8):
             cfg["cosmology"] = "oLCDM"      # the chain term / a supernova sample read from file together with the curved-model guard
             cfg["bounds"]["kwargs_lower_cosmo"], cfg["bounds"]["kwargs_upper_cosmo"] = (
                 dict(COSMO_BOX["oLCDM"][0], **{k: v for k, v in cfg["bounds"]["kwargs_lower_cosmo"].items() if k == "gamma_ppn"}),
@@ -448,6 +458,19 @@ def run(ctx, res):
                     found += 1
                     if found >= 3:
                         break
+            # E(z)^2 positive up to every FIRST source plane but not up to the second source plane of a double-source-plane lens
+            firsts = [kwl.get("z_source", 0.0) for kwl, _, _ in cfg["lenses"]]
+            if any("z_source2" in kwl for kwl, _, _ in cfg["lenses"]) and ztop > max(firsts) + 0.2:
+                found = 0
+                for _ in range(6000):
+                    om, ok = rng.uniform(lo[io], up[io]), rng.uniform(lo[ik], up[ik])
+                    if 1 - om - ok > 0 and physical(om, ok, max(firsts)) and not physical(om, ok, ztop):
+                        x = gen_vector(rng, lo, up, "inside")
+                        x[io], x[ik] = om, ok
+                        vectors.append(("olcdm_second_plane", x))
+                        found += 1
+                        if found >= 4:
+                            break
             # physical points (E(z)^2 > 0 on the whole interval) whose E(z)^2 comes CLOSE to zero: strongly closed
             # universes with very long comoving distances (beyond the antipode the transverse distance changes sign)
             found = 0
